@@ -1244,7 +1244,8 @@ func c16SharedManglersStateless(c *Ctx, rule string) {
 	if !c.need(iface != nil, "transform.Mangler interface") {
 		return
 	}
-	fromRecv := func(f *ssa.Function, v ssa.Value) bool {
+	fromRecv := reachableFromRecv
+	_ = func(f *ssa.Function, v ssa.Value) bool {
 		if len(f.Params) == 0 {
 			return false
 		}
@@ -1457,5 +1458,85 @@ func c16ElemOfNonNil(c *Ctx, rule string) {
 	}
 	if n == 0 {
 		c.okTrivial(rule, "transform", token.NoPos, "no function of the transform package dereferences a pointer-kind parameter")
+	}
+}
+
+// reachableFromRecv: v addresses (or is loaded from) state reachable from the receiver of method f.
+func reachableFromRecv(f *ssa.Function, v ssa.Value) bool {
+	if len(f.Params) == 0 || f.Signature.Recv() == nil {
+		return false
+	}
+	recv := ssa.Value(f.Params[0])
+	seen := map[ssa.Value]bool{}
+	var walk func(v ssa.Value) bool
+	walk = func(v ssa.Value) bool {
+		if v == recv {
+			return true
+		}
+		if seen[v] {
+			return false
+		}
+		seen[v] = true
+		switch x := v.(type) {
+		case *ssa.FieldAddr:
+			return walk(x.X)
+		case *ssa.Field:
+			return walk(x.X)
+		case *ssa.IndexAddr:
+			return walk(x.X)
+		case *ssa.Index:
+			return walk(x.X)
+		case *ssa.Lookup:
+			return walk(x.X)
+		case *ssa.UnOp:
+			return x.Op == token.MUL && walk(x.X)
+		case *ssa.Slice:
+			return walk(x.X)
+		case *ssa.Phi:
+			for _, e := range x.Edges {
+				if walk(e) {
+					return true
+				}
+			}
+		}
+		return false
+	}
+	return walk(v)
+}
+
+// c10ManglersKeepNoState: Mangle / Unmangle / ShouldRecurse of every mangler of the repository write nothing that is
+// reachable from their receiver. A mangler is applied to every field of a type, to the same struct type wherever it
+// occurs again, and again on every reload: what one call leaves behind in the mangler is seen by the next (a memoised,
+// mutable parse result; a counter; a "seen" set).
+func c10ManglersKeepNoState(c *Ctx, rule string) {
+	n := 0
+	for _, im := range manglerImpls(c) {
+		for _, f := range []*ssa.Function{im.mangle, im.unmangle, im.recurse} {
+			if f == nil || f.Blocks == nil {
+				continue
+			}
+			n++
+			bad := false
+			for _, i := range allInstrs(f) {
+				switch x := i.(type) {
+				case *ssa.MapUpdate:
+					if reachableFromRecv(f, x.Map) {
+						bad = true
+						c.bad(rule, relName(f)+"#map", x.Pos(), "%s writes a map reachable from its receiver: what this call records is seen by every later call on the same mangler (the next field of the same type, the next reload)", relName(f))
+					}
+				case *ssa.Store:
+					if _, isAlloc := x.Addr.(*ssa.Alloc); !isAlloc && reachableFromRecv(f, x.Addr) {
+						bad = true
+						c.bad(rule, relName(f)+"#store", x.Pos(), "%s stores into state reachable from its receiver: what this call leaves behind is seen by every later call on the same mangler", relName(f))
+					}
+				}
+			}
+			if !bad {
+				c.ok(rule, relName(f), f.Pos(), "writes nothing reachable from its receiver")
+			}
+		}
+	}
+	if n == 0 {
+		c.bad(rule, "manglers", 0, "no mangler implementation found")
 	}
 }
